@@ -305,6 +305,7 @@ def run(ctx):
             ctx.ob(R2, f'rule={name}' + (f'·{key}' if key else ''), False, f'{name} ({loc}): {cex["problem"]} on {cex["inst"]}', [loc],
                    what=f'rule `{name}` builds an ill-formed plan: {cex["problem"][:160]}')
     subquery_clauses(ctx, prog)
+    apply_price_rule(ctx, prog)
 
 
 def subquery_clauses(ctx, prog):
@@ -335,3 +336,91 @@ def subquery_clauses(ctx, prog):
                                                           'go into the plan without plan_apply or a rejection'), [site(b, c.bb)],
                what=f'a sub-query in the clause bound by {clause} is accepted and reaches the executor builder, which panics '
                     '(`select a, (select max(c) from u) from t`: column $1.0 not found from input)')
+
+
+def apply_price_rule(ctx, prog):
+    """C17-R4: what can not be executed must never be the cheapest form"""
+    R4 = 'C17-R4'
+    ctx.rule(R4, 'nothing forbids the extraction of an Apply, only its price does; so that price must not vanish with the row estimate: in '
+                 'CostFn::cost the Apply arm must contain the cost of its right side in a term that is not multiplied by rows(..) '
+                 '(an additive path from the result to `costs(right)`), otherwise an outer side estimated at 0 rows (empty disk table, '
+                 'LIMIT 0, WHERE false) makes the un-executable plan the cheapest one')
+    b = next((x for n, x in prog.bodies.items() if n.endswith('::cost') and 'planner::cost::CostFn' in n), None)
+    if not ctx.anchor(R4, 'planner::cost::CostFn::cost', b is not None):
+        return
+    ctx.functions_analysed.add(b.name)
+    sw = [(i, bl['term']) for i, bl in enumerate(b.blocks) if bl['term']['k'] == 'switch' and bl['term'].get('adt') == 'planner::Expr'
+          and any(v == 'Apply' for v in (bl['term'].get('variants') or {}).values())]
+    arm = None
+    for i, t in sw:
+        names = t.get('variants', {})
+        for v, tgt in t['targets']:
+            if names.get(str(v)) == 'Apply' and tgt != t.get('otherwise'):
+                arm = tgt
+    if not ctx.anchor(R4, 'CostFn::cost: Apply arm', arm is not None):
+        return
+    others = {tgt for i, t in sw for v, tgt in t['targets'] if (t.get('variants') or {}).get(str(v)) != 'Apply'}
+    region = b.reachable_from([arm], avoid=others)
+    # children of the Apply node: locals holding &enode.Apply.0[k]
+    child = {}
+    for i in region:
+        for st in b.blocks[i]['stmts']:
+            if st['s'] == 'assign' and st['rv'].get('rv') == 'ref' and 'as:Apply' in st['rv']['pl']['p']:
+                m = [re.match(r'^\[(\d+)\]$', p) for p in st['rv']['pl']['p']]
+                m = [x for x in m if x]
+                if m:
+                    child[st['lhs']['l']] = int(m[0].group(1))
+    from tmpl import local_defs, origin_locals
+    from mir import operand_places
+
+    def callee_kind(c):
+        recv = c.args[0]['pl']['l'] if c.args and c.args[0]['k'] != 'const' else None
+        names = {b.var_name(l) for l in origin_locals(b, recv, depth=4)} if recv is not None else set()
+        return 'costs' if 'costs' in names else 'rows' if 'rows' in names else 'other'
+
+    def which_child(c):
+        out = set()
+        for a in c.args[1:]:
+            if a['k'] != 'const':
+                out |= {child[l] for l in origin_locals(b, a['pl']['l'], depth=6) if l in child}
+        return out
+
+    def additive_leaves(l, depth=12):
+        """calls reachable from local l through Add nodes only (within the arm)"""
+        if depth < 0:
+            return []
+        out = []
+        for bb, kind, payload in local_defs(b, l):
+            if bb not in region:
+                continue
+            if kind == 'call':
+                out.append(payload)
+            elif payload.get('rv') == 'binop' and payload['op'].startswith('Add'):
+                for pl in operand_places(payload):
+                    out += additive_leaves(pl['l'], depth - 1)
+            elif payload.get('rv') == 'use' and payload['op']['k'] != 'const':
+                out += additive_leaves(payload['op']['pl']['l'], depth - 1)
+        return out
+    # the arm's result: the last f32 local assigned in the region that flows out (assigned from an Add at the end of the arm)
+    results = [st['lhs']['l'] for i in sorted(region) for st in b.blocks[i]['stmts'] if st['s'] == 'assign' and not st['lhs']['p']
+               and b.local_ty(st['lhs']['l']) == 'f32' and b.var_name(st['lhs']['l']) == 'c']
+    if not ctx.anchor(R4, 'CostFn::cost: result of the Apply arm', results):
+        return
+    from mir import Call
+    leaves = additive_leaves(results[-1])
+    ok = False
+    desc = []
+    for t in leaves:
+        c = next((x for x in b.calls if x.t is t), None)
+        if c is None:
+            continue
+        k, ch = callee_kind(c), which_child(c)
+        desc.append(f'{k}({sorted(ch)})')
+        if k == 'costs' and 2 in ch:
+            ok = True
+    ctx.ob(R4, 'Apply·price-survives-zero-rows', ok,
+           f'additive terms of the Apply arm: {desc}; the cost of the right side (child 2) appears only inside a product with rows(..)'
+           if not ok else f'additive terms of the Apply arm: {desc}', [site(b, arm)],
+           what='the cost of an Apply is `build + costs(left) + rows(left) * costs(right)`: with a left side estimated at 0 rows it is '
+                'cheaper than every join, the optimizer keeps the Apply (or the Filter over Exists/In it came from, priced the same way) '
+                'and the executor builder panics')
